@@ -884,6 +884,9 @@ func (g *gen) applyCall(val ssa.Value, c *ssa.CallCommon, full, short string, or
 		g.callArgsRec = map[string][]T{}
 	}
 	g.callArgsRec[fmt.Sprintf("%s#%d", short, ord)] = argT
+	if q := qualShort(full); q != "" {
+		g.callArgsRec[fmt.Sprintf("%s#%d", q, ord)] = argT
+	}
 	// in-body assertions anchored before this call
 	g.anchoredAsserts(full, short, ord, false, nil, argT, pos)
 
@@ -1043,6 +1046,9 @@ func (g *gen) applyCall(val ssa.Value, c *ssa.CallCommon, full, short string, or
 		g.callResults = map[string][]T{}
 	}
 	g.callResults[fmt.Sprintf("%s#%d", short, ord)] = res
+	if q := qualShort(full); q != "" {
+		g.callResults[fmt.Sprintf("%s#%d", q, ord)] = res
+	}
 	g.anchoredAsserts(full, short, ord, true, res, argT, pos)
 }
 
@@ -1366,4 +1372,41 @@ func (g *gen) foreignClause(e *env, ct *Contract, c *Clause) (t string, ok bool)
 		}
 	}()
 	return g.specBool(e, c), true
+}
+
+// qualShort: "(*pkg.T).M" / "(pkg.T[…]).M" -> "T.M" (receiver-qualified short name, to tell apart
+// methods of the same name on different types in res()/callarg())
+func qualShort(full string) string {
+	if !strings.HasPrefix(full, "(") {
+		return ""
+	}
+	j := strings.Index(full, ").")
+	if j < 0 {
+		return ""
+	}
+	recv := strings.TrimPrefix(full[1:j], "*")
+	if k := strings.Index(recv, "["); k > 0 {
+		recv = recv[:k]
+	}
+	if k := strings.LastIndex(recv, "."); k >= 0 {
+		recv = recv[k+1:]
+	}
+	return recv + "." + full[j+2:]
+}
+
+// lookupCall: exact key, else the unique recorded key "name[…]#ord" (instances of generic functions)
+func lookupCall(m map[string][]T, name string, ord int64) ([]T, bool) {
+	if v, ok := m[fmt.Sprintf("%s#%d", name, ord)]; ok {
+		return v, true
+	}
+	var found []T
+	n := 0
+	suffix := fmt.Sprintf("#%d", ord)
+	for k, v := range m {
+		if strings.HasPrefix(k, name+"[") && strings.HasSuffix(k, suffix) {
+			found = v
+			n++
+		}
+	}
+	return found, n == 1
 }
